@@ -134,6 +134,8 @@ class ArchiveScanner:
                 if cachedStat[0] == st: return bid
                 self.__db.execute("DELETE FROM files WHERE bid=? AND arch=?",
                     (bid, self.__archiveKey))
+                self.__db.execute("DELETE FROM refs WHERE bid=? AND arch=?",
+                    (bid, self.__archiveKey))
 
             # read audit trail
             if verbose: print("\tscan", fileName)
